@@ -369,6 +369,23 @@ def r6(p, rep):
     if not found:
         raise AnalysisError("unrecognised idiom: no ConvertibleTensor(concrete=...parameters=...) construction reachable from _to_tracer")
 
+def r8(p, rep):
+    rep.rule("C13.R8", "optional keywords (name, arg_index, signature) are offered to every factory parameter that can bind a keyword", "T-EXH over inspect.Parameter kinds", floor=2)
+    f = p.func("_call_tensorfactory", "adapter.namedtensor_calltensorfactory")
+    members = set()
+    for g in common.with_helpers(p, f):
+        for n in ast.walk(g.node):
+            ch = attr_chain(n) if isinstance(n, ast.Attribute) else None
+            if ch and len(ch) >= 3 and ch[-3:-1] == ["inspect", "Parameter"]:
+                members.add(ch[-1])
+    site = f.loc
+    need = {"POSITIONAL_OR_KEYWORD", "KEYWORD_ONLY"}
+    miss = need - members
+    rep.add("C13.R8", f"{f.qualname}:keyword-capable-kinds", site, not miss, "a declared parameter receives the keyword if it is POSITIONAL_OR_KEYWORD or KEYWORD_ONLY" if not miss else f"parameters of kind {sorted(miss)} are not recognised as able to take the keyword: a factory declaring e.g. `def f(shape, *, name)` never receives `name` (silently runs with its default or fails), although passing the tensor works")
+    rep.add("C13.R8", f"{f.qualname}:var-keyword", site, "VAR_KEYWORD" in members, "a **kwargs factory receives all optional keywords" if "VAR_KEYWORD" in members else "factories with **kwargs no longer receive the optional keywords")
+    extra = members & {"POSITIONAL_ONLY", "VAR_POSITIONAL"}
+    rep.add("C13.R8", f"{f.qualname}:no-positional-kinds", site, not extra, "positional-only parameters are never addressed by keyword" if not extra else f"{sorted(extra)} parameters cannot bind a keyword argument but are treated as if they could")
+
 
 def run(p, rep, tier):
     r1(p, rep)
@@ -378,6 +395,7 @@ def run(p, rep, tier):
     r4(p, rep)
     r5(p, rep)
     r6(p, rep)
+    r8(p, rep)
     from . import c06
 
     rep.rule("C06.R1", "cache-key classes compare and hash everything they hold", "T-SIB (__init__ vs __eq__ vs __hash__)", floor=2)
